@@ -240,6 +240,7 @@ enum Kind {
 	FixPrunable,
 	VarPlain,
 	FixPlain,
+	VarPrunable,
 }
 
 impl Kind {
@@ -248,12 +249,14 @@ impl Kind {
 			Kind::FixPrunable => "fixed-prunable",
 			Kind::VarPlain => "variable-nonprunable",
 			Kind::FixPlain => "fixed-nonprunable",
+			Kind::VarPrunable => "variable-prunable",
 		}
 	}
 	fn from_name(s: &str) -> Kind {
 		match s {
 			"variable-nonprunable" => Kind::VarPlain,
 			"fixed-nonprunable" => Kind::FixPlain,
+			"variable-prunable" => Kind::VarPrunable,
 			_ => Kind::FixPrunable,
 		}
 	}
@@ -1047,6 +1050,7 @@ fn run_store_program(run: &Run, sc: &Scratch, cfg: &ProgCfg, totals: &Mutex<Tota
 		Kind::FixPrunable => program::<FixElem>(&dir, cfg, true, seed, &mut tr, &mut st),
 		Kind::VarPlain => program::<VarElem>(&dir, cfg, false, seed, &mut tr, &mut st),
 		Kind::FixPlain => program::<FixElem>(&dir, cfg, false, seed, &mut tr, &mut st),
+		Kind::VarPrunable => program::<VarElem>(&dir, cfg, true, seed, &mut tr, &mut st),
 	});
 	let _ = std::fs::remove_dir_all(&dir);
 	let tail: Vec<&String> = tr.ops.iter().rev().take(60).rev().collect();
@@ -1125,7 +1129,8 @@ fn run_store_program(run: &Run, sc: &Scratch, cfg: &ProgCfg, totals: &Mutex<Tota
 
 fn prog_cfg(idx: u64, san: bool) -> ProgCfg {
 	let kind = match idx % 8 {
-		3 | 6 => Kind::VarPlain,
+		3 => Kind::VarPlain,
+		6 => Kind::VarPrunable,
 		7 => Kind::FixPlain,
 		_ => Kind::FixPrunable,
 	};
@@ -2113,7 +2118,8 @@ fn main() {
 	let d = if is_san { 25 } else { 1 };
 	let q = |quick: u64, thorough: u64| -> u64 { run.tier.pick(quick, thorough) / d };
 	run.require("store programs (fixed, prunable)", *t.programs.get("fixed-prunable").unwrap_or(&0), q(200, 4000));
-	run.require("store programs (variable size, non-prunable)", *t.programs.get("variable-nonprunable").unwrap_or(&0), q(80, 1600));
+	run.require("store programs (variable size, non-prunable)", *t.programs.get("variable-nonprunable").unwrap_or(&0), q(50, 1000));
+	run.require("store programs (variable size, prunable: data file and size file compacted together)", *t.programs.get("variable-prunable").unwrap_or(&0), q(50, 1000));
 	run.require("steps checked against the reference", st.steps_checked, q(20_000, 500_000));
 	run.require("compactions that removed data", st.compact_removing, q(500, 12_000));
 	run.require("compactions with nothing to compact", st.compact_noop, q(50, 1000));
